@@ -1171,6 +1171,11 @@ func (e *Exec) randIntn(n value, w int) value {
 			panic(targetPanic{iface{t: types.Typ[types.String], v: "invalid argument to Intn"}})
 		}
 	}
+	e.randDraws++
+	if e.randDraws > e.maxRand {
+		e.Stats.Assumptions[fmt.Sprintf("at most %d random draws per execution (retry loops that draw more are cut)", e.maxRand)] = true
+		panic(abortPath{why: "random draw budget", kind: "assume"})
+	}
 	name := e.freshName("r_rand")
 	e.declare(name, fmt.Sprintf("(_ BitVec %d)", w))
 	nt, _ := bvTerm(n)
